@@ -322,6 +322,11 @@ func c15GenScript(rng *rand.Rand) (int, []string, string) {
 			ops = append(ops, "p")
 		case x < 78:
 			ops = append(ops, fmt.Sprintf("x%d", rng.Intn(created+2)))
+		case x < 82:
+			ops = append(ops, "e")
+		case x < 88 && created > 1:
+			// an older peer closes by itself right before End (not purged yet, in front of live ones)
+			ops = append(ops, fmt.Sprintf("x%d", rng.Intn(created-1)), "e")
 		case x < 88:
 			ops = append(ops, "e")
 		default:
@@ -359,6 +364,14 @@ func c15FixedScripts() []c15Script {
 		{1, []string{"p", "e", "c", "p", "n"}, "-", "pop-then-end"},
 		{2, []string{"c", "e", "c", "e"}, "e", "catch-error"},
 	}
+	// a peer that closed by itself and was not purged yet sits in front of live ones when End runs
+	out = append(out,
+		c15Script{2, []string{"c", "c", "x0", "e", "n"}, "-", "closed-in-front-at-end"},
+		c15Script{3, []string{"c", "c", "c", "x0", "e", "n"}, "-", "closed-in-front-at-end"},
+		c15Script{3, []string{"c", "c", "c", "x1", "e", "n"}, "-", "closed-in-front-at-end"},
+		c15Script{2, []string{"c", "p", "c", "x0", "e", "n"}, "-", "closed-in-front-at-end"},
+		c15Script{4, []string{"c", "c", "c", "c", "x0", "x2", "e", "n"}, "-", "closed-in-front-at-end"},
+	)
 	// stale spares: one peer in use, `max` spares collected and gone stale, one more Collect, End
 	for max := 2; max <= 4; max++ {
 		ops := []string{"c", "p"}
@@ -666,25 +679,54 @@ func TestC15ChildDialClose(t *testing.T) {
 		return
 	}
 	time.Sleep(300 * time.Millisecond) // let connectLoop make its first attempt
+	dead := os.Getenv("VERIF_C15_DEAD")
+	sc, _ := c.(*SnowflakeConn)
+	switch dead {
+	case "session": // the smux session died by itself (keep-alive timeout after a long outage)
+		if sc != nil {
+			sc.sess.Close()
+		}
+	case "stream": // the application closed the embedded stream first
+		if sc != nil {
+			sc.Stream.Close()
+		}
+	}
 	one := func() string { c.Close(); return "ok" }
 	o1, _ := c15Wait(c15Async(one), 15*time.Second)
 	o2, _ := c15Wait(c15Async(one), 15*time.Second)
 	time.Sleep(200 * time.Millisecond)
+	melted := "?"
+	if sc != nil {
+		select {
+		case <-sc.snowflakes.Melted():
+			melted = "yes"
+		default:
+			melted = "NO"
+		}
+	}
+	fmt.Printf("C15CHILD melted %s\n", melted)
 	fmt.Printf("C15CHILD result %s,%s\n", o1, o2)
 }
 
-func c15DialCloseTwice(r *vh.Run, ice []string) {
+func c15DialCloseTwice(r *vh.Run, ice []string) { c15DialClose(r, ice, "") }
+
+// dead: "" | "session" | "stream" — what had already died when Close is called the first time
+func c15DialClose(r *vh.Run, ice []string, dead string) {
 	mode := "none"
 	if ice != nil {
 		mode = "ice:" + strings.Join(ice, ",")
 	}
 	cmd := exec.Command(os.Args[0], "-test.run", "^TestC15ChildDialClose$", "-test.count=1", "-test.timeout=120s")
-	cmd.Env = append(os.Environ(), "VERIF_C15_CHILD="+mode, "VERIF_OUT=")
+	cmd.Env = append(os.Environ(), "VERIF_C15_CHILD="+mode, "VERIF_C15_DEAD="+dead, "VERIF_OUT=")
 	outb, _ := cmd.CombinedOutput()
 	out := string(outb)
 	real := "process-died"
 	detail := ""
+	melted := ""
 	for _, l := range strings.Split(out, "\n") {
+		if strings.HasPrefix(l, "C15CHILD melted ") {
+			melted = strings.TrimPrefix(l, "C15CHILD melted ")
+		}
 		if strings.HasPrefix(l, "C15CHILD result ") {
 			real = strings.TrimPrefix(l, "C15CHILD result ")
 		}
@@ -698,8 +740,15 @@ func c15DialCloseTwice(r *vh.Run, ice []string) {
 	}
 	line := "c15 seq 111 1 e,e -"
 	caseLine := fmt.Sprintf("%s  [child process: Transport.Dial with ICEAddresses %q and an unreachable broker, then SnowflakeConn.Close() twice]", line, ice)
-	r.Case(fmt.Sprintf("template/dial-close-twice/ice=%q/%s", ice, real), caseLine, true)
+	if dead != "" {
+		caseLine += fmt.Sprintf("  [the %s was already dead at the first Close]", dead)
+	}
+	r.Case(fmt.Sprintf("template/dial-close-twice/ice=%q/dead=%q/%s", ice, dead, real), caseLine, true)
 	r.Compare("dial-close-twice", caseLine, real, r.Model(line))
+	if melted == "NO" {
+		r.OracleFail("close-did-not-stop-collecting", caseLine, "after Close returned the peer collection has not been ended (Melted() still open)",
+			"closing the connection stops all further rendezvous attempts and closes every peer it holds, also when the stream or session had already died")
+	}
 	switch {
 	case real == "process-died":
 		key := "client-process-dies"
@@ -713,6 +762,57 @@ func c15DialCloseTwice(r *vh.Run, ice []string) {
 			"closing a SnowflakeConn repeatedly must return, a Close panicked (close of closed channel in Peers.End)")
 	case strings.Contains(real, "blocked"):
 		r.OracleFail("end-blocked", caseLine, real, "SnowflakeConn.Close() did not return within 15 s")
+	}
+}
+
+// c15StallLog delays every log line a little: any window of the code under test that contains logging becomes wide
+// enough for another goroutine to get in.
+type c15StallLog struct{}
+
+func (c15StallLog) Write(p []byte) (int, error) {
+	time.Sleep(500 * time.Microsecond)
+	return len(p), nil
+}
+
+// c15StaleQueueRace: the hand-over queue is full of spares that went stale; a Collect (whose Catch succeeds) races a
+// Pop that drains the stale entries; afterwards End must return.  Repeated with the Pop started at varying offsets
+// and a log writer that widens every logging window.
+func c15StaleQueueRace(r *vh.Run) {
+	log.SetOutput(c15StallLog{})
+	defer log.SetOutput(io.Discard)
+	n := r.N(40, 400)
+	blockedEnd, blockedCollect := 0, 0
+	for it := 0; it < n && blockedEnd == 0; it++ {
+		tg := &c15Tongue{max: 2}
+		p, _ := NewPeers(tg)
+		for k := 0; k < 2; k++ {
+			if pe, err := p.Collect(); err == nil {
+				pe.Close() // a spare that goes stale while queued
+			}
+		}
+		col := c15Async(func() string { _, err := p.Collect(); return fmt.Sprint(err == nil) })
+		delay := time.Duration(r.Rng.Intn(3000)) * time.Microsecond
+		pop := c15Async(func() string {
+			time.Sleep(delay)
+			if pe := p.Pop(); pe == nil {
+				return "nil"
+			}
+			return "peer"
+		})
+		if _, ok := c15Wait(col, 3*time.Second); !ok {
+			blockedCollect++
+		}
+		end := c15Async(func() string { p.End(); return "ok" })
+		if _, ok := c15Wait(end, 5*time.Second); !ok {
+			blockedEnd++
+		}
+		c15Wait(pop, time.Second)
+	}
+	desc := fmt.Sprintf("max=2, two spares collected and gone stale (queue full), then Collect racing a Pop that drains them, then End; %d rounds", n)
+	r.Case("template/stale-queue-collect-vs-pop", desc, true)
+	if blockedEnd > 0 {
+		r.OracleFail("end-blocked", desc, fmt.Sprintf("End did not return within 5 s (Collect still blocked in %d round(s))", blockedCollect),
+			"Close returns in bounded time also while a new peer is being collected after spare peers have gone stale")
 	}
 }
 
@@ -992,6 +1092,9 @@ func TestVerifC15(t *testing.T) {
 		c15DialCloseTwice(r, nil)
 		c15DialCloseTwice(r, []string{""}) // the client binary's default -ice value
 		c15DialCloseTwice(r, []string{"   "})
+		c15StaleQueueRace(r)
+		c15DialClose(r, nil, "session")
+		c15DialClose(r, nil, "stream")
 		c15DialCloseTwice(r, []string{"stun:127.0.0.1:1", ""}) // trailing comma
 	}()
 
